@@ -1,5 +1,5 @@
 (* C14 - Track::play_from (Compile.play_from): for ARBITRARY event lists, what is dropped, what is kept and
-   re-timed, what is restored at tick 0, and in which order - before and after the writer's stable sort. *)
+   re-timed, what is restored at tick 0 - PER CHANNEL - and in which order, before and after the writer's stable sort. *)
 From Sakura.Model Require Import Base Event Writer Compile.
 From Sakura.Proofs Require Import SortP.
 From Coq Require Import Lia Permutation Sorted.
@@ -22,34 +22,42 @@ Definition kept (tp : Z) (e : event) : bool := passes_type e && (tp <=? e_time e
 (* Meta / SysEx before the point: kept, moved to tick 0 *)
 Definition early_meta (tp : Z) (e : event) : bool :=
   match e_type e with Meta | SysEx => e_time e <? tp | _ => false end.
-Definition cc_before (tp : Z) (e : event) : bool := is_type ControllChange e && (e_time e <? tp).
-Definition voice_before (tp : Z) (e : event) : bool := is_type Voice e && (e_time e <? tp).
+
+(* the channel an event sounds on: its channel field as the writer sends it, 0..15 (see chan_of_writer) *)
+Definition chan_of (e : event) : Z := value_range 0 (e_ch e) 15.
+(* a controller change for number `no` on channel `ch` / a program change on channel `ch` *)
+Definition cc_on (ch no : Z) (e : event) : bool := is_type ControllChange e && (chan_of e =? ch) && (e_v1 e =? no).
+Definition voice_on (ch : Z) (e : event) : bool := is_type Voice e && (chan_of e =? ch).
+Definition before (tp : Z) (q : event -> bool) (e : event) : bool := q e && (e_time e <? tp).
 
 (* the LAST element of l that satisfies p (see last_of_some / last_of_none) *)
 Definition last_of {A} (p : A -> bool) (l : list A) : option A :=
   fold_left (fun acc x => if p x then Some x else acc) l None.
 
-(* the LAST controller change for number `no` before the point / the last program change before the point
-   ("last" in the order of the list, which is the order the commands were executed in) *)
-Definition latest_cc_ev (tp no : Z) (evs : list event) : option event :=
-  last_of (fun e => cc_before tp e && (e_v1 e =? no)) evs.
-Definition latest_voice_ev (tp : Z) (evs : list event) : option event := last_of (voice_before tp) evs.
+(* the LAST change of controller `no` ON CHANNEL `ch` before the point / the last program change ON CHANNEL `ch` before
+   the point ("last" in the order of the list, which is the order the commands were executed in) *)
+Definition latest_cc_ev (tp ch no : Z) (evs : list event) : option event := last_of (before tp (cc_on ch no)) evs.
+Definition latest_voice_ev (tp ch : Z) (evs : list event) : option event := last_of (before tp (voice_on ch)) evs.
 
 (* the four segments of the result *)
 Definition pf_early (tp : Z) (evs : list event) : list event := map at_zero (filter (early_meta tp) evs).
 Definition pf_kept (tp : Z) (evs : list event) : list event := map (retime tp) (filter (kept tp) evs).
 (* the value as the writer sends it (0..127), on the channel it was set on *)
-Definition restored_cc_of (tp : Z) (evs : list event) (no : nat) : list event :=
-  match latest_cc_ev tp (Z.of_nat no) evs with
-  | Some e => [ev_cc 0 (e_ch e) (Z.of_nat no) (value_range 0 (e_v2 e) 127)]
+Definition restored_cc_of (tp : Z) (evs : list event) (ch no : nat) : list event :=
+  match latest_cc_ev tp (Z.of_nat ch) (Z.of_nat no) evs with
+  | Some e => [ev_cc 0 (Z.of_nat ch) (Z.of_nat no) (value_range 0 (e_v2 e) 127)]
   | None => []
   end.
-Definition pf_restored_cc (tp : Z) (evs : list event) : list event := flat_map (restored_cc_of tp evs) (seq 0 128).
-Definition pf_restored_voice (tp : Z) (evs : list event) : list event :=
-  match latest_voice_ev tp evs with
-  | Some e => if e_v1 e >=? 0 then [ev_voice 0 (e_ch e) (e_v1 e)] else []
+(* channel 0..15 in ascending order, within a channel the controller numbers 0..127 in ascending order *)
+Definition pf_restored_cc (tp : Z) (evs : list event) : list event :=
+  flat_map (fun ch => flat_map (restored_cc_of tp evs ch) (seq 0 128)) (seq 0 16).
+Definition restored_voice_of (tp : Z) (evs : list event) (ch : nat) : list event :=
+  match latest_voice_ev tp (Z.of_nat ch) evs with
+  | Some e => if e_v1 e >=? 0 then [ev_voice 0 (Z.of_nat ch) (e_v1 e)] else []
   | None => []
   end.
+Definition pf_restored_voice (tp : Z) (evs : list event) : list event := flat_map (restored_voice_of tp evs) (seq 0 16).
+(* all controllers, then all programs *)
 Definition pf_restored (tp : Z) (evs : list event) : list event := pf_restored_cc tp evs ++ pf_restored_voice tp evs.
 
 (* ------------------------------------------------------------------------------------------------ *)
@@ -96,7 +104,7 @@ Qed.
 (* ------------------------------------------------------------------------------------------------ *)
 (* 2. the fold of play_from                                                                           *)
 
-Definition pf_init : pf_acc := mkPf [] [] (repeat (-1) 128) (repeat 0 128) (-1) 0.
+Definition pf_init : pf_acc := mkPf [] [] (repeat (repeat (-1) 128) 16) (repeat (-1) 16).
 Definition pf_run (tp : Z) (evs : list event) : pf_acc := fold_left (pf_step tp) evs pf_init.
 
 Lemma pf_run_snoc tp evs e : pf_run tp (evs ++ [e]) = pf_step tp (pf_run tp evs) e.
@@ -115,12 +123,52 @@ Proof.
     rewrite IH. reflexivity.
 Qed.
 
-Lemma pf_cc_length tp evs : length (pf_cc (pf_run tp evs)) = 128%nat /\ length (pf_cc_ch (pf_run tp evs)) = 128%nat.
+Lemma set_cc2_length n v t : forall c, length (set_cc2 c n v t) = length t.
+Proof. induction t as [|x r IH]; intros [|c]; cbn [set_cc2 length]; try reflexivity. rewrite IH. reflexivity. Qed.
+
+Lemma set_cc2_rows n v t : forall c,
+  Forall (fun r => length r = 128%nat) t -> Forall (fun r => length r = 128%nat) (set_cc2 c n v t).
 Proof.
-  induction evs as [|e l IH] using rev_ind; [split; reflexivity|].
-  rewrite pf_run_snoc. unfold pf_step.
-  destruct (e_type e); try exact IH; destruct (e_time e - tp <? 0); try exact IH.
-  destruct (_ && _); [|exact IH]. cbn [pf_cc pf_cc_ch]. rewrite !set_cc_length. exact IH.
+  induction t as [|x r IH]; intros [|c] H; cbn [set_cc2]; try exact H; inversion H as [|? ? Hx Hr]; subst; constructor.
+  - rewrite set_cc_length. exact Hx.
+  - exact Hr.
+  - exact Hx.
+  - apply IH. exact Hr.
+Qed.
+
+Lemma nth_set_cc2 n v t : forall c i,
+  nth i (set_cc2 c n v t) [] = if Nat.eqb i c && Nat.ltb c (length t) then set_cc n v (nth c t []) else nth i t [].
+Proof.
+  induction t as [|x r IH]; intros c i.
+  - replace (Nat.ltb c (length (@nil (list Z)))) with false by (symmetry; apply Nat.ltb_ge; cbn [length]; lia).
+    rewrite andb_false_r. destruct c; reflexivity.
+  - destruct c as [|c], i as [|i]; cbn [set_cc2 nth length]; try reflexivity.
+    rewrite IH. reflexivity.
+Qed.
+
+Lemma chan_of_range e : 0 <= chan_of e <= 15.
+Proof. unfold chan_of, value_range. destruct (Z.ltb_spec (e_ch e) 0); [lia|]. destruct (Z.gtb_spec (e_ch e) 15); lia. Qed.
+
+Lemma pf_chan_spec e : (pf_chan e < 16)%nat /\ Z.of_nat (pf_chan e) = chan_of e.
+Proof. pose proof (chan_of_range e) as H. unfold pf_chan. fold (chan_of e). lia. Qed.
+
+(* the tables keep their dimensions: 16 rows of 128 values, 16 programs *)
+Lemma pf_dims tp evs :
+  length (pf_cc (pf_run tp evs)) = 16%nat /\ Forall (fun r => length r = 128%nat) (pf_cc (pf_run tp evs)) /\
+  length (pf_voice (pf_run tp evs)) = 16%nat.
+Proof.
+  induction evs as [|e l IH] using rev_ind.
+  - split; [reflexivity|]. split; [|reflexivity]. cbn [pf_run fold_left pf_init pf_cc].
+    apply Forall_forall. intros r Hr. apply repeat_spec in Hr. subst r. apply repeat_length.
+  - rewrite pf_run_snoc. unfold pf_step.
+    destruct (e_type e); try exact IH; destruct (e_time e - tp <? 0); try exact IH.
+    all: try (destruct (_ && _); [|exact IH]); cbn [pf_cc pf_voice]; rewrite ?set_cc_length, ?set_cc2_length;
+      destruct IH as [A [B C]]; (split; [exact A|]); (split; [|exact C]); try exact B; apply set_cc2_rows; exact B.
+Qed.
+
+Lemma pf_row_length tp evs ch : (ch < 16)%nat -> length (nth ch (pf_cc (pf_run tp evs)) []) = 128%nat.
+Proof.
+  intros H. destruct (pf_dims tp evs) as [A [B _]]. rewrite Forall_forall in B. apply B. apply nth_In. lia.
 Qed.
 
 Lemma pf_head_spec tp evs : pf_head (pf_run tp evs) = pf_early tp evs.
@@ -139,75 +187,121 @@ Proof.
   destruct ((0 <=? e_v1 e) && (e_v1 e <? 128)); destruct (e_type e); destruct (tp <=? e_time e); cbn [negb andb pf_rest map]; rewrite ?app_nil_r; reflexivity.
 Qed.
 
-Lemma pf_voice_spec tp evs :
-  pf_voice (pf_run tp evs) = match latest_voice_ev tp evs with Some e => e_v1 e | None => -1 end /\
-  pf_voice_ch (pf_run tp evs) = match latest_voice_ev tp evs with Some e => e_ch e | None => 0 end.
+(* voices[ch]: the program of the last program change on channel ch before the point *)
+Lemma pf_voice_spec tp evs ch : (ch < 16)%nat ->
+  nth ch (pf_voice (pf_run tp evs)) (-1) = match latest_voice_ev tp (Z.of_nat ch) evs with Some e => e_v1 e | None => -1 end.
 Proof.
-  unfold latest_voice_ev. induction evs as [|e l IH] using rev_ind; [split; reflexivity|].
-  rewrite pf_run_snoc, last_of_snoc. unfold pf_step, voice_before, is_type.
-  replace (e_time e - tp <? 0) with (e_time e <? tp) by lia.
-  destruct ((0 <=? e_v1 e) && (e_v1 e <? 128)); destruct (e_type e); destruct (e_time e <? tp); cbn [etype_eqb andb pf_voice pf_voice_ch]; try exact IH;
-    split; reflexivity.
-Qed.
-
-Lemma pf_cc_spec tp evs no : (no < 128)%nat ->
-  nth no (pf_cc (pf_run tp evs)) (-1)
-  = match latest_cc_ev tp (Z.of_nat no) evs with Some e => value_range 0 (e_v2 e) 127 | None => -1 end /\
-  nth no (pf_cc_ch (pf_run tp evs)) 0
-  = match latest_cc_ev tp (Z.of_nat no) evs with Some e => e_ch e | None => 0 end.
-Proof.
-  intros Hno. unfold latest_cc_ev. induction evs as [|e l IH] using rev_ind.
-  - cbn [pf_run fold_left pf_init pf_cc pf_cc_ch last_of]. split; apply nth_repeat.
-  - rewrite pf_run_snoc, last_of_snoc. unfold pf_step, cc_before, is_type.
+  intros Hch. unfold latest_voice_ev. induction evs as [|e l IH] using rev_ind.
+  - cbn [pf_run fold_left pf_init pf_voice last_of]. apply nth_repeat.
+  - rewrite pf_run_snoc, last_of_snoc. unfold pf_step, before, voice_on, is_type.
     replace (e_time e - tp <? 0) with (e_time e <? tp) by lia.
-    destruct (e_type e); destruct (e_time e <? tp); cbn [etype_eqb andb pf_cc pf_cc_ch]; try exact IH.
-    destruct ((0 <=? e_v1 e) && (e_v1 e <? 128)) eqn:R.
-    + cbn [pf_cc pf_cc_ch]. rewrite !nth_set_cc. destruct (pf_cc_length tp l) as [L1 L2]. rewrite L1, L2.
-      destruct (e_v1 e =? Z.of_nat no) eqn:E.
-      * replace (Nat.eqb no (Z.to_nat (e_v1 e))) with true by (symmetry; apply Nat.eqb_eq; lia).
-        replace (Nat.ltb (Z.to_nat (e_v1 e)) 128) with true by (symmetry; apply Nat.ltb_lt; lia).
-        split; reflexivity.
-      * replace (Nat.eqb no (Z.to_nat (e_v1 e))) with false by (symmetry; apply Nat.eqb_neq; lia).
-        exact IH.
-    + replace (e_v1 e =? Z.of_nat no) with false by lia. exact IH.
+    destruct ((0 <=? e_v1 e) && (e_v1 e <? 128));
+      destruct (e_type e); destruct (e_time e <? tp); cbn [etype_eqb andb pf_voice]; rewrite ?andb_false_r; try exact IH.
+    all: rewrite andb_true_r, nth_set_cc; destruct (pf_dims tp l) as [_ [_ L]]; rewrite L;
+      destruct (pf_chan_spec e) as [C1 C2];
+      replace (Nat.ltb (pf_chan e) 16) with true by (symmetry; apply Nat.ltb_lt; exact C1); rewrite andb_true_r;
+      destruct (Z.eqb_spec (chan_of e) (Z.of_nat ch)) as [E|E];
+      [replace (Nat.eqb ch (pf_chan e)) with true by (symmetry; apply Nat.eqb_eq; lia); reflexivity
+      |replace (Nat.eqb ch (pf_chan e)) with false by (symmetry; apply Nat.eqb_neq; lia); exact IH].
 Qed.
 
-(* restore_ccs over the two tables: one event per entry that is not negative, in controller order *)
-Lemma restore_ccs_seq (c g : nat -> Z) : forall n k,
-  restore_ccs (Z.of_nat k) (map c (seq k n)) (map g (seq k n))
-  = flat_map (fun i => if g i <? 0 then [] else [ev_cc 0 (c i) (Z.of_nat i) (g i)]) (seq k n).
+(* cc_values[ch][no]: the value (as the writer sends it) of the last change of controller no on channel ch before the point *)
+Lemma pf_cc_spec tp evs ch no : (ch < 16)%nat -> (no < 128)%nat ->
+  nth no (nth ch (pf_cc (pf_run tp evs)) []) (-1)
+  = match latest_cc_ev tp (Z.of_nat ch) (Z.of_nat no) evs with Some e => value_range 0 (e_v2 e) 127 | None => -1 end.
+Proof.
+  intros Hch Hno. unfold latest_cc_ev. induction evs as [|e l IH] using rev_ind.
+  - cbn [pf_run fold_left pf_init pf_cc last_of].
+    rewrite (nth_indep _ [] (repeat (-1) 128)) by (rewrite repeat_length; exact Hch). rewrite nth_repeat. apply nth_repeat.
+  - rewrite pf_run_snoc, last_of_snoc. unfold pf_step, before, cc_on, is_type.
+    replace (e_time e - tp <? 0) with (e_time e <? tp) by lia.
+    destruct (e_type e); destruct (e_time e <? tp); cbn [etype_eqb andb pf_cc]; rewrite ?andb_false_r; try exact IH.
+    rewrite andb_true_r.
+    destruct ((0 <=? e_v1 e) && (e_v1 e <? 128)) eqn:R.
+    + cbn [pf_cc]. rewrite nth_set_cc2. destruct (pf_dims tp l) as [L _]. rewrite L.
+      destruct (pf_chan_spec e) as [C1 C2].
+      replace (Nat.ltb (pf_chan e) 16) with true by (symmetry; apply Nat.ltb_lt; exact C1). rewrite andb_true_r.
+      destruct (Z.eqb_spec (chan_of e) (Z.of_nat ch)) as [E|E]; cbn [andb].
+      * replace (Nat.eqb ch (pf_chan e)) with true by (symmetry; apply Nat.eqb_eq; lia).
+        replace (pf_chan e) with ch by lia.
+        rewrite nth_set_cc, (pf_row_length tp l ch Hch).
+        destruct (Z.eqb_spec (e_v1 e) (Z.of_nat no)) as [N|N].
+        -- replace (Nat.eqb no (Z.to_nat (e_v1 e))) with true by (symmetry; apply Nat.eqb_eq; lia).
+           replace (Nat.ltb (Z.to_nat (e_v1 e)) 128) with true by (symmetry; apply Nat.ltb_lt; lia). reflexivity.
+        -- replace (Nat.eqb no (Z.to_nat (e_v1 e))) with false by (symmetry; apply Nat.eqb_neq; lia). exact IH.
+      * replace (Nat.eqb ch (pf_chan e)) with false by (symmetry; apply Nat.eqb_neq; lia). exact IH.
+    + replace (e_v1 e =? Z.of_nat no) with false by lia. rewrite andb_false_r. exact IH.
+Qed.
+
+(* the restoring loops over the tables: one event per entry that is not negative, channel-major, in controller order *)
+Lemma restore_ccs_seq (g : nat -> Z) ch : forall n k,
+  restore_ccs ch (Z.of_nat k) (map g (seq k n))
+  = flat_map (fun i => if g i <? 0 then [] else [ev_cc 0 ch (Z.of_nat i) (g i)]) (seq k n).
 Proof.
   induction n as [|n IH]; intros k; [reflexivity|].
-  cbn [seq map restore_ccs flat_map hd tl]. f_equal.
+  cbn [seq map restore_ccs flat_map]. f_equal.
   replace (Z.of_nat k + 1) with (Z.of_nat (S k)) by lia. apply IH.
 Qed.
 
-Lemma table_is_map (F : nat -> Z) (d : Z) (l : list Z) :
-  length l = 128%nat -> (forall n, (n < 128)%nat -> nth n l d = F n) -> l = map F (seq 0 128).
+Lemma restore_cc_rows_seq (R : nat -> list Z) : forall n k,
+  restore_cc_rows (Z.of_nat k) (map R (seq k n)) = flat_map (fun c => restore_ccs (Z.of_nat c) 0 (R c)) (seq k n).
+Proof.
+  induction n as [|n IH]; intros k; [reflexivity|].
+  cbn [seq map restore_cc_rows flat_map]. f_equal.
+  replace (Z.of_nat k + 1) with (Z.of_nat (S k)) by lia. apply IH.
+Qed.
+
+Lemma restore_voices_seq (g : nat -> Z) : forall n k,
+  restore_voices (Z.of_nat k) (map g (seq k n))
+  = flat_map (fun c => if g c >=? 0 then [ev_voice 0 (Z.of_nat c) (g c)] else []) (seq k n).
+Proof.
+  induction n as [|n IH]; intros k; [reflexivity|].
+  cbn [seq map restore_voices flat_map]. f_equal.
+  replace (Z.of_nat k + 1) with (Z.of_nat (S k)) by lia. apply IH.
+Qed.
+
+Lemma table_is_map {A} (F : nat -> A) (d : A) (l : list A) (n : nat) :
+  length l = n -> (forall i, (i < n)%nat -> nth i l d = F i) -> l = map F (seq 0 n).
 Proof.
   intros Hl H. apply (nth_ext _ _ d (F 0%nat)).
   - rewrite Hl, map_length, seq_length. reflexivity.
-  - intros n Hn. rewrite Hl in Hn. rewrite (H n Hn), (map_nth F), seq_nth by exact Hn. reflexivity.
+  - intros i Hi. rewrite Hl in Hi. rewrite (H i Hi), (map_nth F), seq_nth by exact Hi. reflexivity.
 Qed.
 
 Lemma value_range_not_neg v : (value_range 0 v 127 <? 0) = false.
 Proof. unfold value_range. destruct (Z.ltb_spec v 0); [reflexivity|]. destruct (Z.gtb_spec v 127); lia. Qed.
 
-(* THE DECOMPOSITION: early Meta/SysEx at tick 0, then the restored controllers (ascending number) and program,
-   then everything kept, re-timed, in the original order *)
+Lemma restore_cc_rows_spec tp evs : restore_cc_rows 0 (pf_cc (pf_run tp evs)) = pf_restored_cc tp evs.
+Proof.
+  set (G := fun ch no : nat =>
+    match latest_cc_ev tp (Z.of_nat ch) (Z.of_nat no) evs with Some e => value_range 0 (e_v2 e) 127 | None => -1 end).
+  assert (T : pf_cc (pf_run tp evs) = map (fun ch => map (G ch) (seq 0 128)) (seq 0 16)).
+  { apply (table_is_map _ []); [apply (pf_dims tp evs)|]. intros ch Hch.
+    apply (table_is_map _ (-1)); [apply pf_row_length; exact Hch|]. intros no Hno. apply pf_cc_spec; assumption. }
+  rewrite T. etransitivity; [exact (restore_cc_rows_seq (fun ch => map (G ch) (seq 0 128)) 16 0)|]. unfold pf_restored_cc.
+  apply flat_map_ext. intros ch. etransitivity; [exact (restore_ccs_seq (G ch) (Z.of_nat ch) 128 0)|].
+  apply flat_map_ext. intros no. unfold restored_cc_of, G.
+  destruct (latest_cc_ev tp (Z.of_nat ch) (Z.of_nat no) evs) as [e|]; [rewrite value_range_not_neg|]; reflexivity.
+Qed.
+
+Lemma restore_voices_spec tp evs : restore_voices 0 (pf_voice (pf_run tp evs)) = pf_restored_voice tp evs.
+Proof.
+  set (g := fun ch : nat => match latest_voice_ev tp (Z.of_nat ch) evs with Some e => e_v1 e | None => -1 end).
+  assert (T : pf_voice (pf_run tp evs) = map g (seq 0 16)).
+  { apply (table_is_map _ (-1)); [apply (pf_dims tp evs)|]. intros ch Hch. apply pf_voice_spec. exact Hch. }
+  rewrite T. etransitivity; [exact (restore_voices_seq g 16 0)|]. unfold pf_restored_voice.
+  apply flat_map_ext. intros ch. unfold restored_voice_of, g.
+  destruct (latest_voice_ev tp (Z.of_nat ch) evs) as [e|]; reflexivity.
+Qed.
+
+(* THE DECOMPOSITION: early Meta/SysEx at tick 0, then the restored controllers (channel 0..15, within a channel in
+   ascending number) and the restored programs (channel 0..15), then everything kept, re-timed, in the original order *)
 Theorem play_from_decomposition tp evs :
   play_from tp evs = pf_early tp evs ++ pf_restored tp evs ++ pf_kept tp evs.
 Proof.
   unfold play_from. fold pf_init. fold (pf_run tp evs).
-  rewrite pf_head_spec, pf_rest_spec. destruct (pf_voice_spec tp evs) as [V1 V2]. rewrite V1, V2.
-  destruct (pf_cc_length tp evs) as [L1 L2].
-  rewrite (table_is_map _ (-1) _ L1 (fun n Hn => proj1 (pf_cc_spec tp evs n Hn))).
-  rewrite (table_is_map _ 0 _ L2 (fun n Hn => proj2 (pf_cc_spec tp evs n Hn))).
-  f_equal. unfold pf_restored. rewrite <- app_assoc. f_equal; [|f_equal].
-  - change 0 with (Z.of_nat 0) at 1. rewrite restore_ccs_seq. unfold pf_restored_cc.
-    apply flat_map_ext. intros no. unfold restored_cc_of.
-    destruct (latest_cc_ev tp (Z.of_nat no) evs) as [e|]; [rewrite value_range_not_neg|]; reflexivity.
-  - unfold pf_restored_voice. destruct (latest_voice_ev tp evs) as [e|]; reflexivity.
+  rewrite pf_head_spec, pf_rest_spec, restore_cc_rows_spec, restore_voices_spec.
+  unfold pf_restored. rewrite <- app_assoc. reflexivity.
 Qed.
 
 (* ------------------------------------------------------------------------------------------------ *)
@@ -248,10 +342,10 @@ Qed.
 
 Lemma restored_no_note tp evs : filter (is_type NoteOn) (pf_restored tp evs) = [].
 Proof.
-  unfold pf_restored. rewrite filter_app. unfold pf_restored_cc.
-  rewrite filter_flat_map_nil.
-  - unfold pf_restored_voice. destruct (latest_voice_ev tp evs) as [e|]; [destruct (e_v1 e >=? 0)|]; reflexivity.
-  - intros no. unfold restored_cc_of. destruct (latest_cc_ev _ _ _) as [e|]; reflexivity.
+  unfold pf_restored. rewrite filter_app. unfold pf_restored_cc, pf_restored_voice.
+  rewrite !filter_flat_map_nil; [reflexivity| |].
+  - intros ch. unfold restored_voice_of. destruct (latest_voice_ev _ _ _) as [e|]; [destruct (e_v1 e >=? 0)|]; reflexivity.
+  - intros ch. apply filter_flat_map_nil. intros no. unfold restored_cc_of. destruct (latest_cc_ev _ _ _ _) as [e|]; reflexivity.
 Qed.
 
 (* (a) the note-ons of the result are exactly the note-ons at or after the point, re-timed, in order *)
@@ -279,25 +373,15 @@ Proof.
   unfold pf_early. f_equal. apply filter_ext. intros e. unfold early_meta, is_type. destruct (e_type e); reflexivity.
 Qed.
 
-(* (c) for every controller number: exactly one restoring event if the controller was written before the point
-   (none otherwise), carrying the LATEST value as the writer sends it, on the channel it was written on *)
-Lemma restored_cc_of_v1 tp evs no k :
-  filter (fun e => e_v1 e =? Z.of_nat k) (restored_cc_of tp evs no)
-  = if Nat.eqb no k then restored_cc_of tp evs no else [].
+(* (c) for every channel and controller number: exactly one restoring event if that controller was written on that
+   channel before the point (none otherwise), carrying the LATEST such value as the writer sends it, on that channel *)
+Lemma filter_flat_map_pick {B} (q : B -> bool) (F : nat -> list B) (k : nat) (R : list B) :
+  (forall i, filter q (F i) = if Nat.eqb i k then R else []) ->
+  forall n a, filter q (flat_map F (seq a n)) = if Nat.leb a k && Nat.ltb k (a + n) then R else [].
 Proof.
-  unfold restored_cc_of. destruct (latest_cc_ev _ _ _) as [e|]; [|destruct (Nat.eqb no k); reflexivity].
-  cbn [filter ev_cc e_v1]. destruct (Nat.eqb_spec no k) as [->|N].
-  - rewrite Z.eqb_refl. reflexivity.
-  - replace (Z.of_nat no =? Z.of_nat k) with false by lia. reflexivity.
-Qed.
-
-Lemma filter_flat_map_seq tp evs k : forall n a,
-  filter (fun e => e_v1 e =? Z.of_nat k) (flat_map (restored_cc_of tp evs) (seq a n))
-  = if Nat.leb a k && Nat.ltb k (a + n) then restored_cc_of tp evs k else [].
-Proof.
-  induction n as [|n IH]; intros a.
+  intros H. induction n as [|n IH]; intros a.
   - cbn [seq flat_map filter]. destruct (Nat.leb_spec a k), (Nat.ltb_spec k (a + 0)); cbn [andb]; try reflexivity; lia.
-  - cbn [seq flat_map]. rewrite filter_app, restored_cc_of_v1, IH.
+  - cbn [seq flat_map]. rewrite filter_app, H, IH.
     destruct (Nat.eqb_spec a k) as [->|N].
     + replace (Nat.leb (S k) k) with false by (symmetry; apply Nat.leb_gt; lia). cbn [andb]. rewrite app_nil_r.
       rewrite Nat.leb_refl. replace (Nat.ltb k (k + S n)) with true by (symmetry; apply Nat.ltb_lt; lia). reflexivity.
@@ -305,95 +389,167 @@ Proof.
         cbn [andb]; try reflexivity; lia.
 Qed.
 
-Theorem restored_cc_unique tp evs no : 0 <= no < 128 ->
-  filter (fun e => e_v1 e =? no) (pf_restored_cc tp evs)
-  = match latest_cc_ev tp no evs with
-    | Some e => [ev_cc 0 (e_ch e) no (value_range 0 (e_v2 e) 127)]
+Definition on_chan_no (ch no : Z) (e : event) : bool := (e_ch e =? ch) && (e_v1 e =? no).
+
+Lemma restored_cc_of_key tp evs ch no c k :
+  filter (on_chan_no (Z.of_nat c) (Z.of_nat k)) (restored_cc_of tp evs ch no)
+  = if Nat.eqb ch c && Nat.eqb no k then restored_cc_of tp evs ch no else [].
+Proof.
+  unfold restored_cc_of. destruct (latest_cc_ev _ _ _ _) as [e|]; [|destruct (_ && _); reflexivity].
+  unfold on_chan_no. cbn [filter ev_cc e_v1 e_ch].
+  destruct (Nat.eqb_spec ch c) as [->|C]; [rewrite Z.eqb_refl|replace (Z.of_nat ch =? Z.of_nat c) with false by lia; reflexivity].
+  destruct (Nat.eqb_spec no k) as [->|N]; [rewrite Z.eqb_refl; reflexivity|].
+  replace (Z.of_nat no =? Z.of_nat k) with false by lia. reflexivity.
+Qed.
+
+Theorem restored_cc_unique tp evs ch no : 0 <= ch < 16 -> 0 <= no < 128 ->
+  filter (fun e => (e_ch e =? ch) && (e_v1 e =? no)) (pf_restored_cc tp evs)
+  = match latest_cc_ev tp ch no evs with
+    | Some e => [ev_cc 0 ch no (value_range 0 (e_v2 e) 127)]
     | None => []
     end.
 Proof.
-  intros H. unfold pf_restored_cc. replace no with (Z.of_nat (Z.to_nat no)) by lia.
-  rewrite filter_flat_map_seq. cbn [Nat.leb andb].
-  replace (Nat.ltb (Z.to_nat no) (0 + 128)) with true by (symmetry; apply Nat.ltb_lt; lia). reflexivity.
+  intros Hc Hn. change (fun e => (e_ch e =? ch) && (e_v1 e =? no)) with (on_chan_no ch no).
+  replace ch with (Z.of_nat (Z.to_nat ch)) by lia. replace no with (Z.of_nat (Z.to_nat no)) by lia.
+  set (c := Z.to_nat ch). set (k := Z.to_nat no).
+  unfold pf_restored_cc.
+  rewrite (filter_flat_map_pick _ _ c (restored_cc_of tp evs c k)).
+  - cbn [Nat.leb andb]. replace (Nat.ltb c (0 + 16)) with true by (symmetry; apply Nat.ltb_lt; unfold c; lia). reflexivity.
+  - intros i. destruct (Nat.eqb_spec i c) as [->|N].
+    + rewrite (filter_flat_map_pick _ _ k (restored_cc_of tp evs c k)).
+      * cbn [Nat.leb andb]. replace (Nat.ltb k (0 + 128)) with true by (symmetry; apply Nat.ltb_lt; unfold k; lia). reflexivity.
+      * intros j. rewrite restored_cc_of_key, Nat.eqb_refl. cbn [andb]. destruct (Nat.eqb_spec j k) as [->|]; reflexivity.
+    + apply filter_flat_map_nil. intros j. rewrite restored_cc_of_key.
+      replace (Nat.eqb i c) with false by (symmetry; apply Nat.eqb_neq; exact N). reflexivity.
 Qed.
 
-(* every restored controller event: a controller change at tick 0, number 0..127, value 0..127 *)
+(* every restored controller event: a controller change at tick 0, channel 0..15, number 0..127, value 0..127 - and that
+   controller WAS written on that channel before the point (nothing is re-issued for a pair never set) *)
 Theorem restored_cc_shape tp evs e : In e (pf_restored_cc tp evs) ->
-  e_type e = ControllChange /\ e_time e = 0 /\ 0 <= e_v1 e < 128 /\ 0 <= e_v2 e <= 127 /\
-  exists e0, latest_cc_ev tp (e_v1 e) evs = Some e0 /\ e_ch e = e_ch e0 /\ e_v2 e = value_range 0 (e_v2 e0) 127.
+  e_type e = ControllChange /\ e_time e = 0 /\ 0 <= e_ch e < 16 /\ 0 <= e_v1 e < 128 /\ 0 <= e_v2 e <= 127 /\
+  exists e0, latest_cc_ev tp (e_ch e) (e_v1 e) evs = Some e0 /\ e_v2 e = value_range 0 (e_v2 e0) 127.
 Proof.
-  unfold pf_restored_cc. rewrite in_flat_map. intros [no [Hno He]]. apply in_seq in Hno.
-  unfold restored_cc_of in He. destruct (latest_cc_ev tp (Z.of_nat no) evs) as [e0|] eqn:L; [|destruct He].
+  unfold pf_restored_cc. rewrite in_flat_map. intros [ch [Hch He]]. apply in_seq in Hch.
+  rewrite in_flat_map in He. destruct He as [no [Hno He]]. apply in_seq in Hno.
+  unfold restored_cc_of in He. destruct (latest_cc_ev tp (Z.of_nat ch) (Z.of_nat no) evs) as [e0|] eqn:L; [|destruct He].
   destruct He as [<-|[]]. cbn [ev_cc e_type e_time e_v1 e_v2 e_ch].
   assert (B : 0 <= value_range 0 (e_v2 e0) 127 <= 127).
   { unfold value_range. destruct (Z.ltb_spec (e_v2 e0) 0); [lia|]. destruct (Z.gtb_spec (e_v2 e0) 127); lia. }
-  repeat split; try lia. exists e0. repeat split. exact L.
+  repeat split; try lia. exists e0. split; [exact L|reflexivity].
 Qed.
 
-(* what "latest" means: the last controller change for that number before the point, in list order *)
-Theorem latest_cc_some tp no evs e :
-  latest_cc_ev tp no evs = Some e <->
-  exists l1 l2, evs = l1 ++ e :: l2 /\ e_type e = ControllChange /\ e_time e < tp /\ e_v1 e = no /\
-    Forall (fun x => ~ (e_type x = ControllChange /\ e_time x < tp /\ e_v1 x = no)) l2.
+(* the programs: per channel the latest program change before the point, on that channel *)
+Lemma restored_voice_of_key tp evs ch c :
+  filter (fun e => e_ch e =? Z.of_nat c) (restored_voice_of tp evs ch)
+  = if Nat.eqb ch c then restored_voice_of tp evs ch else [].
 Proof.
-  unfold latest_cc_ev. rewrite last_of_some. split.
-  - intros [l1 [l2 [-> [Pe Hl2]]]]. exists l1, l2.
-    unfold cc_before, is_type in Pe. apply andb_prop in Pe. destruct Pe as [Pe1 Pe3]. apply andb_prop in Pe1. destruct Pe1 as [Pe1 Pe2].
-    repeat split; try lia; [destruct (e_type e); try discriminate; reflexivity|].
-    apply Forall_forall. intros x Hx [X1 [X2 X3]]. rewrite forallb_forall in Hl2. specialize (Hl2 x Hx).
-    unfold cc_before, is_type in Hl2. rewrite X1 in Hl2. cbn [etype_eqb andb] in Hl2.
-    replace (e_time x <? tp) with true in Hl2 by lia. replace (e_v1 x =? no) with true in Hl2 by lia. discriminate.
-  - intros [l1 [l2 [-> [T [Tm [N Hl2]]]]]]. exists l1, l2. split; [reflexivity|]. split.
-    + unfold cc_before, is_type. rewrite T. cbn [etype_eqb andb]. lia.
-    + apply forallb_forall. intros x Hx. rewrite Forall_forall in Hl2. specialize (Hl2 x Hx).
-      unfold cc_before, is_type. destruct (e_type x) eqn:Tx; cbn [etype_eqb andb negb]; try reflexivity.
-      destruct (e_time x <? tp) eqn:A; cbn [andb negb]; [|reflexivity].
-      destruct (e_v1 x =? no) eqn:B; cbn [negb]; [|reflexivity]. exfalso. apply Hl2. repeat split; lia.
+  unfold restored_voice_of. destruct (latest_voice_ev _ _ _) as [e|]; [|destruct (Nat.eqb ch c); reflexivity].
+  destruct (e_v1 e >=? 0); [|destruct (Nat.eqb ch c); reflexivity].
+  cbn [filter ev_voice e_ch]. destruct (Nat.eqb_spec ch c) as [->|C]; [rewrite Z.eqb_refl; reflexivity|].
+  replace (Z.of_nat ch =? Z.of_nat c) with false by lia. reflexivity.
 Qed.
 
-Theorem latest_cc_none tp no evs :
-  latest_cc_ev tp no evs = None <-> Forall (fun x => ~ (e_type x = ControllChange /\ e_time x < tp /\ e_v1 x = no)) evs.
+Theorem restored_voice_unique tp evs ch : 0 <= ch < 16 ->
+  filter (fun e => e_ch e =? ch) (pf_restored_voice tp evs)
+  = match latest_voice_ev tp ch evs with
+    | Some e => if e_v1 e >=? 0 then [ev_voice 0 ch (e_v1 e)] else []
+    | None => []
+    end.
 Proof.
-  unfold latest_cc_ev. rewrite last_of_none. split.
-  - intros L. apply Forall_forall. intros x Hx [X1 [X2 X3]].
-    rewrite forallb_forall in L. specialize (L x Hx). unfold cc_before, is_type in L. rewrite X1 in L. cbn [etype_eqb andb] in L.
-    replace (e_time x <? tp) with true in L by lia. replace (e_v1 x =? no) with true in L by lia. discriminate.
-  - intros H. apply forallb_forall. intros x Hx. rewrite Forall_forall in H. specialize (H x Hx).
-    unfold cc_before, is_type. destruct (e_type x) eqn:Tx; cbn [etype_eqb andb negb]; try reflexivity.
-    destruct (e_time x <? tp) eqn:A; cbn [andb negb]; [|reflexivity].
-    destruct (e_v1 x =? no) eqn:B; cbn [negb]; [|reflexivity]. exfalso. apply H. repeat split; lia.
+  intros Hc. replace ch with (Z.of_nat (Z.to_nat ch)) by lia. set (c := Z.to_nat ch).
+  unfold pf_restored_voice. rewrite (filter_flat_map_pick _ _ c (restored_voice_of tp evs c)).
+  - cbn [Nat.leb andb]. replace (Nat.ltb c (0 + 16)) with true by (symmetry; apply Nat.ltb_lt; unfold c; lia). reflexivity.
+  - intros i. rewrite restored_voice_of_key. destruct (Nat.eqb_spec i c) as [->|]; reflexivity.
 Qed.
 
-Theorem latest_voice_some tp evs e :
-  latest_voice_ev tp evs = Some e <->
-  exists l1 l2, evs = l1 ++ e :: l2 /\ e_type e = Voice /\ e_time e < tp /\
-    Forall (fun x => ~ (e_type x = Voice /\ e_time x < tp)) l2.
+Theorem restored_voice_shape tp evs e : In e (pf_restored_voice tp evs) ->
+  e_type e = Voice /\ e_time e = 0 /\ 0 <= e_ch e < 16 /\ 0 <= e_v1 e /\
+  exists e0, latest_voice_ev tp (e_ch e) evs = Some e0 /\ e_v1 e = e_v1 e0.
 Proof.
-  unfold latest_voice_ev. rewrite last_of_some. split.
-  - intros [l1 [l2 [-> [Pe Hl2]]]]. exists l1, l2.
-    unfold voice_before, is_type in Pe. apply andb_prop in Pe. destruct Pe as [Pe1 Pe2].
-    repeat split; try lia; [destruct (e_type e); try discriminate; reflexivity|].
-    apply Forall_forall. intros x Hx [X1 X2]. rewrite forallb_forall in Hl2. specialize (Hl2 x Hx).
-    unfold voice_before, is_type in Hl2. rewrite X1 in Hl2. cbn [etype_eqb andb] in Hl2.
-    replace (e_time x <? tp) with true in Hl2 by lia. discriminate.
-  - intros [l1 [l2 [-> [T [Tm Hl2]]]]]. exists l1, l2. split; [reflexivity|]. split.
-    + unfold voice_before, is_type. rewrite T. cbn [etype_eqb andb]. lia.
-    + apply forallb_forall. intros x Hx. rewrite Forall_forall in Hl2. specialize (Hl2 x Hx).
-      unfold voice_before, is_type. destruct (e_type x) eqn:Tx; cbn [etype_eqb andb negb]; try reflexivity.
-      destruct (e_time x <? tp) eqn:A; cbn [negb]; [|reflexivity]. exfalso. apply Hl2. split; [reflexivity|lia].
+  unfold pf_restored_voice. rewrite in_flat_map. intros [ch [Hch He]]. apply in_seq in Hch.
+  unfold restored_voice_of in He. destruct (latest_voice_ev tp (Z.of_nat ch) evs) as [e0|] eqn:L; [|destruct He].
+  destruct (Z.geb_spec (e_v1 e0) 0) as [G|G]; [|destruct He].
+  destruct He as [<-|[]]. cbn [ev_voice e_type e_time e_v1 e_ch].
+  repeat split; try lia. exists e0. split; [exact L|reflexivity].
 Qed.
 
-Theorem latest_voice_none tp evs :
-  latest_voice_ev tp evs = None <-> Forall (fun x => ~ (e_type x = Voice /\ e_time x < tp)) evs.
+(* the channel of the statements is the channel byte the writer sends; for the events the compiler produces
+   (channel 0..15) it is the channel field itself *)
+Theorem chan_of_writer e :
+  chan_of e = Z.min (Z.max (e_ch e) 0) 15 /\ midi_ch (e_ch e) = chan_of e /\ (0 <= e_ch e <= 15 -> chan_of e = e_ch e).
 Proof.
-  unfold latest_voice_ev. rewrite last_of_none. split.
-  - intros L. apply Forall_forall. intros x Hx [X1 X2].
-    rewrite forallb_forall in L. specialize (L x Hx). unfold voice_before, is_type in L. rewrite X1 in L. cbn [etype_eqb andb] in L.
-    replace (e_time x <? tp) with true in L by lia. discriminate.
-  - intros H. apply forallb_forall. intros x Hx. rewrite Forall_forall in H. specialize (H x Hx).
-    unfold voice_before, is_type. destruct (e_type x) eqn:Tx; cbn [etype_eqb andb negb]; try reflexivity.
-    destruct (e_time x <? tp) eqn:A; cbn [negb]; [|reflexivity]. exfalso. apply H. split; [reflexivity|lia].
+  assert (A : chan_of e = Z.min (Z.max (e_ch e) 0) 15).
+  { unfold chan_of, value_range. destruct (Z.ltb_spec (e_ch e) 0); [lia|]. destruct (Z.gtb_spec (e_ch e) 15); lia. }
+  split; [exact A|]. split.
+  - unfold midi_ch, as_u8. rewrite <- A. pose proof (chan_of_range e). apply Z.mod_small. lia.
+  - intros H. rewrite A. lia.
 Qed.
+
+(* what "latest" means: the last such event of the list before the point *)
+Lemma is_type_true ty e : is_type ty e = true <-> e_type e = ty.
+Proof. unfold is_type. destruct (e_type e), ty; cbn [etype_eqb]; split; intros H; try reflexivity; discriminate. Qed.
+
+Lemma before_true tp q e : before tp q e = true <-> q e = true /\ e_time e < tp.
+Proof. unfold before. rewrite andb_true_iff, Z.ltb_lt. reflexivity. Qed.
+
+Lemma cc_on_true ch no e : cc_on ch no e = true <-> e_type e = ControllChange /\ chan_of e = ch /\ e_v1 e = no.
+Proof. unfold cc_on. rewrite !andb_true_iff, is_type_true, !Z.eqb_eq. tauto. Qed.
+
+Lemma voice_on_true ch e : voice_on ch e = true <-> e_type e = Voice /\ chan_of e = ch.
+Proof. unfold voice_on. rewrite andb_true_iff, is_type_true, Z.eqb_eq. reflexivity. Qed.
+
+Lemma last_of_some_P {A} (p : A -> bool) (P : A -> Prop) : (forall x, p x = true <-> P x) -> forall l x,
+  last_of p l = Some x <-> exists l1 l2, l = l1 ++ x :: l2 /\ P x /\ Forall (fun y => ~ P y) l2.
+Proof.
+  intros HP l x. rewrite last_of_some. split; intros [l1 [l2 [E [Px H]]]]; exists l1, l2; (split; [exact E|split; [apply HP; exact Px|]]).
+  - apply Forall_forall. intros y Hy Py. rewrite forallb_forall in H. specialize (H y Hy). apply HP in Py. rewrite Py in H. discriminate.
+  - apply forallb_forall. intros y Hy. rewrite Forall_forall in H. destruct (p y) eqn:E'; [|reflexivity].
+    exfalso. apply (H y Hy), HP, E'.
+Qed.
+
+Lemma last_of_none_P {A} (p : A -> bool) (P : A -> Prop) : (forall x, p x = true <-> P x) -> forall l,
+  last_of p l = None <-> Forall (fun y => ~ P y) l.
+Proof.
+  intros HP l. rewrite last_of_none. split; intros H.
+  - apply Forall_forall. intros y Hy Py. rewrite forallb_forall in H. specialize (H y Hy). apply HP in Py. rewrite Py in H. discriminate.
+  - apply forallb_forall. intros y Hy. rewrite Forall_forall in H. destruct (p y) eqn:E'; [|reflexivity].
+    exfalso. apply (H y Hy), HP, E'.
+Qed.
+
+Lemma cc_pred_true tp ch no x :
+  before tp (cc_on ch no) x = true <-> e_type x = ControllChange /\ e_time x < tp /\ chan_of x = ch /\ e_v1 x = no.
+Proof. rewrite before_true, cc_on_true. tauto. Qed.
+
+Lemma voice_pred_true tp ch x :
+  before tp (voice_on ch) x = true <-> e_type x = Voice /\ e_time x < tp /\ chan_of x = ch.
+Proof. rewrite before_true, voice_on_true. tauto. Qed.
+
+Theorem latest_cc_some tp ch no evs e :
+  latest_cc_ev tp ch no evs = Some e <->
+  exists l1 l2, evs = l1 ++ e :: l2 /\ e_type e = ControllChange /\ e_time e < tp /\ chan_of e = ch /\ e_v1 e = no /\
+    Forall (fun x => ~ (e_type x = ControllChange /\ e_time x < tp /\ chan_of x = ch /\ e_v1 x = no)) l2.
+Proof.
+  unfold latest_cc_ev. rewrite (last_of_some_P _ _ (cc_pred_true tp ch no)).
+  split; intros (l1 & l2 & E & H); exists l1, l2; (split; [exact E|]); tauto.
+Qed.
+
+Theorem latest_cc_none tp ch no evs :
+  latest_cc_ev tp ch no evs = None <->
+  Forall (fun x => ~ (e_type x = ControllChange /\ e_time x < tp /\ chan_of x = ch /\ e_v1 x = no)) evs.
+Proof. unfold latest_cc_ev. apply (last_of_none_P _ _ (cc_pred_true tp ch no)). Qed.
+
+Theorem latest_voice_some tp ch evs e :
+  latest_voice_ev tp ch evs = Some e <->
+  exists l1 l2, evs = l1 ++ e :: l2 /\ e_type e = Voice /\ e_time e < tp /\ chan_of e = ch /\
+    Forall (fun x => ~ (e_type x = Voice /\ e_time x < tp /\ chan_of x = ch)) l2.
+Proof.
+  unfold latest_voice_ev. rewrite (last_of_some_P _ _ (voice_pred_true tp ch)).
+  split; intros (l1 & l2 & E & H); exists l1, l2; (split; [exact E|]); tauto.
+Qed.
+
+Theorem latest_voice_none tp ch evs :
+  latest_voice_ev tp ch evs = None <-> Forall (fun x => ~ (e_type x = Voice /\ e_time x < tp /\ chan_of x = ch)) evs.
+Proof. unfold latest_voice_ev. apply (last_of_none_P _ _ (voice_pred_true tp ch)). Qed.
 
 (* (e) nothing else passes: NoteOff, PitchBend, PitchBendRange and DirectSMF events are dropped wherever they stand *)
 Theorem play_from_kinds tp evs : Forall (fun e => passes_type e = true) (play_from tp evs).
@@ -404,7 +560,7 @@ Proof.
     destruct (e_type x); try discriminate; reflexivity.
   - unfold pf_restored. apply Forall_app. split.
     + apply Forall_forall. intros e He. apply restored_cc_shape in He. destruct He as [T _]. unfold passes_type. rewrite T. reflexivity.
-    + unfold pf_restored_voice. destruct (latest_voice_ev tp evs) as [e0|]; [destruct (e_v1 e0 >=? 0)|]; repeat constructor.
+    + apply Forall_forall. intros e He. apply restored_voice_shape in He. destruct He as [T _]. unfold passes_type. rewrite T. reflexivity.
   - unfold pf_kept. apply Forall_forall. intros e He. apply in_map_iff in He. destruct He as [x [<- Hx]].
     apply filter_In in Hx. destruct Hx as [_ Hx]. unfold kept in Hx. apply andb_prop in Hx. exact (proj1 Hx).
 Qed.
@@ -431,7 +587,7 @@ Lemma pf_restored_times tp evs : Forall (fun e => e_time e = 0) (pf_restored tp 
 Proof.
   unfold pf_restored. apply Forall_app. split.
   - apply Forall_forall. intros e He. apply restored_cc_shape in He. apply He.
-  - unfold pf_restored_voice. destruct (latest_voice_ev tp evs) as [e0|]; [destruct (e_v1 e0 >=? 0)|]; repeat constructor.
+  - apply Forall_forall. intros e He. apply restored_voice_shape in He. apply He.
 Qed.
 
 (* ------------------------------------------------------------------------------------------------ *)
@@ -576,42 +732,20 @@ Lemma at_time_mid t l1 e l2 : e_time e = t -> at_time t (l1 ++ e :: l2) = at_tim
 Proof. intros H. unfold at_time. rewrite filter_app. cbn [filter]. rewrite H, Z.eqb_refl. reflexivity. Qed.
 
 (* over the sorted list the last such event of the list is the latest in time; among those of that tick, the one
-   written last (stability of the sort) *)
-Theorem latest_cc_in_time tp no evs e : latest_cc_ev tp no (events_sort evs) = Some e ->
-  In e evs /\ e_type e = ControllChange /\ e_time e < tp /\ e_v1 e = no /\
-  Forall (fun x => e_type x = ControllChange -> e_v1 x = no -> e_time x < tp -> e_time x <= e_time e) evs /\
-  exists a b, at_time (e_time e) evs = a ++ e :: b /\ Forall (fun x => ~ (e_type x = ControllChange /\ e_v1 x = no)) b.
+   written last (stability of the sort).  q: any predicate on events, e.g. "controller no on channel ch" *)
+Lemma latest_in_time_gen (q : event -> bool) tp evs e : last_of (before tp q) (events_sort evs) = Some e ->
+  In e evs /\ q e = true /\ e_time e < tp /\
+  Forall (fun x => q x = true -> e_time x < tp -> e_time x <= e_time e) evs /\
+  exists a b, at_time (e_time e) evs = a ++ e :: b /\ Forall (fun x => q x <> true) b.
 Proof.
-  intros L. apply latest_cc_some in L. destruct L as [l1 [l2 [E [T [Tm [N Hl2]]]]]].
+  intros L. apply (last_of_some_P _ _ (before_true tp q)) in L. destruct L as [l1 [l2 [E [[Q Tm] Hl2]]]].
   pose proof (events_sort_sorted evs) as Hs. rewrite E in Hs.
   pose proof (sorted_before_mid l1 e l2 Hs) as H1.
   assert (Hin : forall x, In x evs -> In x (l1 ++ e :: l2)).
   { intros x Hx. rewrite <- E. apply (Permutation_in _ (Permutation_sym (events_sort_perm evs))). exact Hx. }
   split; [apply (Permutation_in _ (events_sort_perm evs)); rewrite E; apply in_or_app; right; left; reflexivity|].
-  repeat split; try assumption.
-  - apply Forall_forall. intros x Hx X1 X2 X3. apply Hin in Hx. apply in_app_or in Hx. destruct Hx as [Hx|[<-|Hx]].
-    + rewrite Forall_forall in H1. apply H1. exact Hx.
-    + lia.
-    + rewrite Forall_forall in Hl2. exfalso. apply (Hl2 x Hx). repeat split; assumption.
-  - exists (at_time (e_time e) l1), (at_time (e_time e) l2). split.
-    + rewrite <- (events_sort_stable evs), E. apply at_time_mid. reflexivity.
-    + apply Forall_forall. intros x Hx [X1 X2]. unfold at_time in Hx. apply filter_In in Hx. destruct Hx as [Hx Ht].
-      rewrite Forall_forall in Hl2. apply (Hl2 x Hx). repeat split; try assumption. lia.
-Qed.
-
-Theorem latest_voice_in_time tp evs e : latest_voice_ev tp (events_sort evs) = Some e ->
-  In e evs /\ e_type e = Voice /\ e_time e < tp /\
-  Forall (fun x => e_type x = Voice -> e_time x < tp -> e_time x <= e_time e) evs /\
-  exists a b, at_time (e_time e) evs = a ++ e :: b /\ Forall (fun x => e_type x <> Voice) b.
-Proof.
-  intros L. apply latest_voice_some in L. destruct L as [l1 [l2 [E [T [Tm Hl2]]]]].
-  pose proof (events_sort_sorted evs) as Hs. rewrite E in Hs.
-  pose proof (sorted_before_mid l1 e l2 Hs) as H1.
-  assert (Hin : forall x, In x evs -> In x (l1 ++ e :: l2)).
-  { intros x Hx. rewrite <- E. apply (Permutation_in _ (Permutation_sym (events_sort_perm evs))). exact Hx. }
-  split; [apply (Permutation_in _ (events_sort_perm evs)); rewrite E; apply in_or_app; right; left; reflexivity|].
-  repeat split; try assumption.
-  - apply Forall_forall. intros x Hx X1 X3. apply Hin in Hx. apply in_app_or in Hx. destruct Hx as [Hx|[<-|Hx]].
+  split; [exact Q|]. split; [exact Tm|]. split.
+  - apply Forall_forall. intros x Hx X1 X2. apply Hin in Hx. apply in_app_or in Hx. destruct Hx as [Hx|[<-|Hx]].
     + rewrite Forall_forall in H1. apply H1. exact Hx.
     + lia.
     + rewrite Forall_forall in Hl2. exfalso. apply (Hl2 x Hx). split; assumption.
@@ -621,11 +755,45 @@ Proof.
       rewrite Forall_forall in Hl2. apply (Hl2 x Hx). split; [assumption|lia].
 Qed.
 
-(* nothing such before the point in the written list <-> nothing restored *)
-Theorem latest_cc_sorted_none tp no evs :
-  latest_cc_ev tp no (events_sort evs) = None <-> Forall (fun x => ~ (e_type x = ControllChange /\ e_time x < tp /\ e_v1 x = no)) evs.
+Theorem latest_cc_in_time tp ch no evs e : latest_cc_ev tp ch no (events_sort evs) = Some e ->
+  In e evs /\ e_type e = ControllChange /\ e_time e < tp /\ chan_of e = ch /\ e_v1 e = no /\
+  Forall (fun x => e_type x = ControllChange -> chan_of x = ch -> e_v1 x = no -> e_time x < tp -> e_time x <= e_time e) evs /\
+  exists a b, at_time (e_time e) evs = a ++ e :: b /\
+    Forall (fun x => ~ (e_type x = ControllChange /\ chan_of x = ch /\ e_v1 x = no)) b.
 Proof.
-  rewrite latest_cc_none. split; intros H; apply Forall_forall; intros x Hx; rewrite Forall_forall in H; apply H.
+  intros L. apply latest_in_time_gen in L. destruct L as (I & Q & Tm & F & a & b & Ea & Fb).
+  apply cc_on_true in Q. destruct Q as (Q1 & Q2 & Q3).
+  repeat (split; [assumption|]). split.
+  - eapply Forall_impl; [|exact F]. cbv beta. intros x Hx X1 X2 X3 X4. apply Hx; [|exact X4]. apply cc_on_true. tauto.
+  - exists a, b. split; [exact Ea|]. eapply Forall_impl; [|exact Fb]. cbv beta. intros x Hx X. apply Hx, cc_on_true, X.
+Qed.
+
+Theorem latest_voice_in_time tp ch evs e : latest_voice_ev tp ch (events_sort evs) = Some e ->
+  In e evs /\ e_type e = Voice /\ e_time e < tp /\ chan_of e = ch /\
+  Forall (fun x => e_type x = Voice -> chan_of x = ch -> e_time x < tp -> e_time x <= e_time e) evs /\
+  exists a b, at_time (e_time e) evs = a ++ e :: b /\ Forall (fun x => ~ (e_type x = Voice /\ chan_of x = ch)) b.
+Proof.
+  intros L. apply latest_in_time_gen in L. destruct L as (I & Q & Tm & F & a & b & Ea & Fb).
+  apply voice_on_true in Q. destruct Q as (Q1 & Q2).
+  repeat (split; [assumption|]). split.
+  - eapply Forall_impl; [|exact F]. cbv beta. intros x Hx X1 X2 X3. apply Hx; [|exact X3]. apply voice_on_true. tauto.
+  - exists a, b. split; [exact Ea|]. eapply Forall_impl; [|exact Fb]. cbv beta. intros x Hx X. apply Hx, voice_on_true, X.
+Qed.
+
+(* nothing such before the point in the written list <-> nothing restored *)
+Lemma Forall_sorted_iff (P : event -> Prop) evs : Forall P (events_sort evs) <-> Forall P evs.
+Proof.
+  split; intros H; apply Forall_forall; intros x Hx; rewrite Forall_forall in H; apply H.
   - apply (Permutation_in _ (Permutation_sym (events_sort_perm evs))). exact Hx.
   - apply (Permutation_in _ (events_sort_perm evs)). exact Hx.
 Qed.
+
+Theorem latest_cc_sorted_none tp ch no evs :
+  latest_cc_ev tp ch no (events_sort evs) = None <->
+  Forall (fun x => ~ (e_type x = ControllChange /\ e_time x < tp /\ chan_of x = ch /\ e_v1 x = no)) evs.
+Proof. rewrite latest_cc_none. apply Forall_sorted_iff. Qed.
+
+Theorem latest_voice_sorted_none tp ch evs :
+  latest_voice_ev tp ch (events_sort evs) = None <->
+  Forall (fun x => ~ (e_type x = Voice /\ e_time x < tp /\ chan_of x = ch)) evs.
+Proof. rewrite latest_voice_none. apply Forall_sorted_iff. Qed.
